@@ -17,6 +17,7 @@ LEVEL_NOTE = ("Bounds: R: n = F+1 quick / [F,F+2] thorough, 3 geometries quick /
               "thorough with all cohesive ends pairwise distinct and pairwise non-reverse-complementary (the symmetric closure of "
               "C01's domain: the code screens start overhangs, whose mirror images are end overhangs); E2E: chain 2. The registry "
               "clause is not claimed. Trusted: z3, CPython, symx models.")
+LEVEL_NOTE_EXTRA = "Also: vector overhangs that are reverse complements of each other are inside the space (as in C01's); generic classes over 3'-overhang cutters (typing half); junctions containing the unknown base N."
 TECHNIQUE = "bounded symbolic execution of the real Python source (symx) with z3; metamorphic relation under reverse complement; replay on the real stack"
 EXPLANATION = "two runs on one path (inputs and their reverse complements); outputs related by reverse complement"
 ASSUMPTIONS = [
